@@ -114,6 +114,11 @@ def methods(w, seed, spec):
                 x64 = bool(rng.integers(0, 2))
                 dt = 'float64' if (x64 and rng.integers(0, 2)) else 'float32'
                 cases.append((n_, K_, m, f, x64, dt, (), ()))
+    # more bands than rows ("band counts K" is not limited by n: the outer bands fall outside the matrix)
+    for n_, K_ in [(3, 5), (4, 6), (4, 7), (5, 8), (2, 5), (1, 3), (3, 4)]:
+        for m in meths:
+            cases.append((n_, K_, m, None, False, 'float32', (), ()))
+    cases.append((3, 5, 'dense' if 'dense' in meths else meths[0], None, False, 'float32', (2,), (2,)))
     # batches: band values broadcast to the input's batch shape; fft_size left to the default (finding (a) otherwise)
     for m in meths:
         cases.append((4, 2, m, None, False, 'float32', (2,), (2,)))
